@@ -1243,7 +1243,11 @@ class TmpStore:
         # a copy of the index here.  An alternative would be to ensure that
         # all callers pass copies.  As is, our callers do not make copies.
         self.index = index.copy()
-        self.creating = creating
+        # The same goes for `creating`: the savepoint keeps the mapping it
+        # passes us, and objects created after this rollback must not leak
+        # into it, or a second rollback to the same savepoint would no
+        # longer un-add them.
+        self.creating = creating.copy()
 
 
 class RootConvenience:
